@@ -107,6 +107,9 @@ type Boundary struct {
 	Seq    int    // running number over the whole program, depth first
 	Need   string // "" or " "
 	Glue   bool   // nothing may be inserted
+	// ContOnly: a glued boundary (between an io-number and its operator)
+	// where a blank is illegal but a line continuation is not
+	ContOnly bool
 	// Linebreak: newlines (and comment lines) may be inserted here
 	Linebreak bool
 	// BeforeNewline: the next token is a newline (or the end of the whole
@@ -328,6 +331,12 @@ func (r *renderer) stream(s *Stream, top bool) {
 			b.Glue = true
 		}
 		if b.Glue {
+			if prev != nil && prev.Kind == KIONum && next != nil {
+				b.ContOnly = true
+				if r.lay.Gap(b).Cont {
+					r.b.WriteString("\\\n")
+				}
+			}
 			return
 		}
 		g := r.lay.Gap(b)
